@@ -561,12 +561,20 @@ class Multiplexer(wiring.Component):
         # those together. If the toolchain doesn't already synthesize multiplexer trees this way,
         # this trick can save a significant amount of logic, since e.g. one 4-LUT can pack one
         # 2-MUX, but two 2-AND or 2-OR gates.
+        def any_of(terms):
+            # OR the terms together pairwise, so that the depth of the expression grows with the logarithm
+            # of their number; a linear chain exceeds the recursion limit of the HDL front-end once a
+            # multiplexer has about a thousand chunks or registers (large register files, large alignments).
+            while len(terms) > 1:
+                terms = [a | b for a, b in zip(terms[0::2], terms[1::2])] + terms[len(terms) & ~1:]
+            return terms[0] if terms else 0
+
         r_data_fanin = []
 
         for chunk_offset, r_chunk in r_shadow.chunks():
             # Use the same trick to select which CSR register is read into a shadow register chunk.
-            r_chunk_w_en_fanin = 0
-            r_chunk_data_fanin = 0
+            r_chunk_w_en_fanin = []
+            r_chunk_data_fanin = []
 
             m.d.sync += r_chunk.r_en.eq(0)
 
@@ -583,22 +591,18 @@ class Multiplexer(wiring.Component):
                         # Delay by 1 cycle, allowing reads to be pipelined.
                         m.d.sync += r_chunk.r_en.eq(self.bus.r_stb)
 
-                    r_chunk_w_en_fanin |= reg.element.r_stb
-                    r_chunk_data_fanin |= Mux(reg.element.r_stb, reg_r_data, 0)
+                    r_chunk_w_en_fanin.append(reg.element.r_stb)
+                    r_chunk_data_fanin.append(Mux(reg.element.r_stb, reg_r_data, 0))
 
-            m.d.comb += r_chunk.w_en.eq(r_chunk_w_en_fanin)
+            # Many registers may share one chunk (by default, all one-word registers share a single one):
+            # these are reduced pairwise too, see below.
+            m.d.comb += r_chunk.w_en.eq(any_of(r_chunk_w_en_fanin))
             with m.If(r_chunk.w_en):
-                m.d.sync += r_chunk.data.eq(r_chunk_data_fanin)
+                m.d.sync += r_chunk.data.eq(any_of(r_chunk_data_fanin))
 
             r_data_fanin.append(Mux(r_chunk.r_en, r_chunk.data, 0))
 
-        # OR the chunks together pairwise, so that the depth of the expression grows with the logarithm of
-        # the number of chunks; a linear chain exceeds the recursion limit of the HDL front-end once a
-        # multiplexer has about a thousand chunks (large register files, or large alignments).
-        while len(r_data_fanin) > 1:
-            r_data_fanin = [a | b for a, b in zip(r_data_fanin[0::2], r_data_fanin[1::2])] + \
-                           r_data_fanin[len(r_data_fanin) & ~1:]
-        m.d.comb += self.bus.r_data.eq(r_data_fanin[0] if r_data_fanin else 0)
+        m.d.comb += self.bus.r_data.eq(any_of(r_data_fanin))
 
         for chunk_offset, w_chunk in w_shadow.chunks():
             with m.Switch(self.bus.addr):
